@@ -737,6 +737,14 @@ func c05RaceScenarios(tier string) []scenario {
 		return strings.HasPrefix(n, "echo-reader-eof/") || strings.HasPrefix(n, "echo-closeread/")
 	})
 	extra(c16Scenarios(tier), func(n string) bool { return strings.HasPrefix(n, "peer-w2/") || strings.HasPrefix(n, "closeread-w1/") })
+	// closers racing the first CloseRead call (what CloseRead publishes for Close's wait)
+	for _, k := range []connCfg{{Client: false}, {Client: true}} {
+		sc := scenario{Name: "x-race-closeread/Close+CloseNow/" + k.String(), Cfg: explore.Config{P: 0, Horizon: 120e9}, Setup: c20ConcSetup(k, "CloseNow", false)}
+		if tier == "thorough" {
+			sc.Cfg.P = 1
+		}
+		out = append(out, raceWrap("C05", sc))
+	}
 	// two connections read through wsjson at the same time (the pooled buffer of one must not be in use by the other)
 	extra(c19Scenarios(tier), func(n string) bool { return strings.HasPrefix(n, "pool-none/") || strings.HasPrefix(n, "pool-valid/") })
 	return out
